@@ -3,6 +3,7 @@ package checks
 import (
 	"bytes"
 	"context"
+	"encoding/json"
 	"errors"
 	"fmt"
 	"io"
@@ -21,6 +22,7 @@ import (
 	"verif/known"
 	"verif/lk"
 	"verif/nodes"
+	"verif/refcbor"
 	"verif/val"
 )
 
@@ -41,9 +43,9 @@ type faultReader struct {
 	data     []byte
 	chunks   []int // cyclic; empty = as much as asked
 	ci       int
-	failAt   int  // inject errInjected once this many bytes were delivered (-1: never)
+	failAt   int   // inject errInjected once this many bytes were delivered (-1: never)
 	failWith error // the error to inject (errInjected when nil)
-	eofWithN bool // deliver the final bytes together with io.EOF
+	eofWithN bool  // deliver the final bytes together with io.EOF
 	pos      int
 	// zeroAt > 0: when exactly this many bytes were delivered, one read returns (0, nil) — legal for an
 	// io.Reader ("callers should treat a return of 0 and nil as indicating that nothing happened") — and
@@ -402,6 +404,86 @@ var c06Part = evid.Part[C06Case]{
 	Check: c06Check,
 }.Reg()
 
+// TestC06_BigBlocks: the same guarantee for blocks far beyond the enumeration bound (1.5 MiB): damage near the
+// start (so that the decoder fails with most of the block unread), in the middle and at the end, truncation and
+// extension, against the four loaders and the two wrong-kind loaders; hash mismatch must win every time.
+func TestC06_BigBlocks(t *testing.T) {
+	if evid.Shard() != 0 {
+		t.Skip()
+	}
+	rec := evid.New("C06", "bigblocks", "blocks of 1.5 MiB (dag-cbor, dag-json, raw): byte damage at offsets 0, 1, middle, last; truncation by 1 byte and to a quarter; extension by 1 byte and by 2 MiB; against Load, LoadRaw, LoadPlusRaw, Fill and Load / Fill into a prototype of another kind; every one must fail with ErrHashMismatch; enumerated completely")
+	rec.Exhaustive()
+	defer rec.Flush()
+	if err := c06BigBlocks(rec); err != nil {
+		evid.SaveFailure("C06", "bigblocks", map[string]any{"table": "bigblocks"}, err)
+		t.Fatalf("C06.bigblocks: %v", err)
+	}
+}
+
+func init() {
+	evid.RegisterRaw("C06", "bigblocks", func(json.RawMessage) error { return c06BigBlocks(evid.New("C06", "bigblocks", "")) })
+}
+
+func c06BigBlocks(rec *evid.Rec) error {
+	payload := bytes.Repeat([]byte("0123456789abcdef"), 3<<15) // 1.5 MiB
+	for _, codec := range []uint64{lk.CodecDagCbor, lk.CodecDagJson, lk.CodecRaw} {
+		lp := lk.LP{Version: 1, Codec: codec, MhType: 0x12, MhLength: -1}
+		var v val.V = val.MkList(val.MkString("head"), val.MkBytes(payload), val.MkMap(val.Ent{K: "tail", V: val.MkInt(1)}))
+		if codec == lk.CodecRaw {
+			v = val.MkBytes(payload)
+		}
+		lsys := lk.LinkSystem(false)
+		mem := &memstore.Store{Bag: map[string][]byte{}}
+		lsys.SetReadStorage(mem)
+		lsys.SetWriteStorage(mem)
+		lnk, err := lsys.Store(linking.LinkContext{}, lp.Proto(), nodes.MustBuild(v))
+		if err != nil {
+			return fmt.Errorf("Store: %v", err)
+		}
+		block := mem.Bag[lnk.Binary()]
+		var served [][]byte
+		for _, off := range []int{0, 1, len(block) / 2, len(block) - 1} {
+			b := append([]byte{}, block...)
+			b[off] ^= 0x01
+			served = append(served, b)
+		}
+		served = append(served, block[:len(block)-1], block[:len(block)/4], append(append([]byte{}, block...), 0x00), append(append([]byte{}, block...), make([]byte, 2<<20)...))
+		wrongProto := datamodel.NodePrototype(basicnode.Prototype.String)
+		for fi, b := range served {
+			b := b
+			ls := lsys
+			ls.StorageReadOpener = func(linking.LinkContext, datamodel.Link) (io.Reader, error) { return bytes.NewReader(b), nil }
+			for _, loader := range c06Loaders {
+				lctx := linking.LinkContext{Ctx: context.Background()}
+				err := evid.Guard(loader, func() error {
+					var e error
+					switch loader {
+					case "Load":
+						_, e = ls.Load(lctx, lnk, basicnode.Prototype.Any)
+					case "LoadRaw":
+						_, e = ls.LoadRaw(lctx, lnk)
+					case "LoadPlusRaw":
+						_, _, e = ls.LoadPlusRaw(lctx, lnk, basicnode.Prototype.Any)
+					case "Load/kind":
+						_, e = ls.Load(lctx, lnk, wrongProto)
+					case "Fill/kind":
+						e = ls.Fill(lctx, lnk, wrongProto.NewBuilder())
+					default:
+						e = ls.Fill(lctx, lnk, basicnode.Prototype.Any.NewBuilder())
+					}
+					return e
+				})
+				var hm linking.ErrHashMismatch
+				if err == nil || !errors.As(err, &hm) {
+					return fmt.Errorf("%s of a %d-byte block (codec 0x%x) served with damage #%d (%d bytes): want ErrHashMismatch, got %v", loader, len(block), codec, fi, len(b), err)
+				}
+				rec.CaseCounted(true, "loader:"+loader)
+			}
+		}
+	}
+	return nil
+}
+
 func TestC06_LoadFaults(t *testing.T) { c06Part.Run(t) }
 
 // ---------------------------------------------------------------------------------------
@@ -451,6 +533,13 @@ func c06StoreCheck(c C06StoreCase, rec *evid.Rec) error {
 	}
 	if _, err := lsys.Store(linking.LinkContext{}, c.LP.Proto(), n); err != nil || committed != 1 {
 		return fmt.Errorf("plain Store failed: %v (commits %d)", err, committed)
+	}
+	// what a fault-free Store writes does not depend on earlier Stores that failed (in this process: the
+	// previous cases): for dag-cbor it is the reference encoding
+	if c.LP.Codec == lk.CodecDagCbor {
+		if ref, rerr := refcbor.Encode(v); rerr == nil && !bytes.Equal(ref, full.Bytes()) {
+			return fmt.Errorf("a fault-free Store (after earlier failed ones in this process) wrote %s, the canonical encoding is %s", clip(full.Bytes()), clip(ref))
+		}
 	}
 	// a commit that fails, and a write opener that fails, must make Store fail (never a link for a block that
 	// is not there)
